@@ -674,10 +674,29 @@ where
         let local_classes_cell = RefCell::new(&mut local_classes);
         let evals = Cell::new(0u64);
         let last_fail: RefCell<Option<Failure>> = RefCell::new(None);
+        // Crash guard (JV_CRASH_GUARD=1, set by ./check for checks whose
+        // failure mode can be a process abort: memory errors, stack
+        // overflow): the case about to run is written to a per-shard file in
+        // replay format, so that the driver can name it if the process dies.
+        let crash_file = if std::env::var("JV_CRASH_GUARD").is_ok() {
+            let dir = format!("{VERIF_DIR}/.work/crash");
+            let _ = std::fs::create_dir_all(&dir);
+            std::fs::OpenOptions::new().create(true).write(true).truncate(true).open(format!("{dir}/{}-{shard}.json", self.name)).ok()
+        } else {
+            None
+        };
+        let crash_file = RefCell::new(crash_file);
         let result = runner.run(&strat, |case| {
             if stop.load(Ordering::Relaxed) && !failed.get() {
                 // another shard already found a violation: finish quickly
                 return Ok(());
+            }
+            if let Some(f) = crash_file.borrow_mut().as_mut() {
+                use std::io::{Seek, Write};
+                let doc = json!({"property": rec.property, "check": self.name, "sig": "process-crash", "msg": "the process died while running this case", "case": serde_json::to_value(&case).unwrap_or(Value::Null)}).to_string();
+                let _ = f.seek(std::io::SeekFrom::Start(0));
+                let _ = f.write_all(doc.as_bytes());
+                let _ = f.set_len(doc.len() as u64);
             }
             let mut cx = Cx::default();
             let mut r = run_case(self.name, self.test, &case, &mut cx);
